@@ -324,6 +324,12 @@ func init() {
 					cs[i].P["ffresets"] = int64(2 + i%2)
 					cs[i].P["ffsingle"] = 1 // served by one random peer, possibly one that lags behind the resetting node
 					delete(cs[i].P, "rejoin")
+					if i%8 == 2 {
+						// on a persistent store: the database still holds the blocks above an
+						// anchor that lies below the node's own last block
+						cs[i].P["badger"] = 1
+						cs[i].P["cache"] = int64(2500 + 100*(i%7))
+					}
 				}
 				if i%4 == 3 {
 					// transient failures writing frames, i.e. in the middle of turning decided rounds into blocks
@@ -505,6 +511,11 @@ func init() {
 				cs[i].P["joins"] += int64(i % 2)
 				delete(cs[i].P, "rejoin")
 				cs[i].P["badger"] = 0
+				if i%5 == 2 {
+					// persistent stores: an in-place reset leaves the previous life's data in the database
+					cs[i].P["badger"] = 1
+					cs[i].P["cache"] = int64(2500 + 100*(i%7))
+				}
 				if i%4 == 1 {
 					// two validator-set changes decided within a few rounds, resets
 					// while both are pending, another change afterwards
